@@ -166,7 +166,7 @@ package act
 //@   ensures qlen(self) == old(qlen(self)) + 1
 
 //@ func (p *Pool) forward
-//@   props C19
+//@   props C19 C07
 //@   mode int
 //@   modifies emptyFlag, qlen, fwd(message), withWorker(message), spawnFail(), p.forwarded, p.restarts, p.unhandled
 //@   requires [ring] p.pool != nil
